@@ -17,6 +17,7 @@ MANIFEST = {
     'note': 'Trusted: numpy. The optional control-point check (waveform argument) is not part of the property and not exercised.',
     'technique': 'reference-predicate oracle on the real cycle labelling / is_good / container flag, exhaustive small-scope enumeration + seeded random',
 }
+LOGGER_ON_ODD_SHARDS = True
 BUDGET_S = {'quick': 60, 'thorough': 420}
 MAXLEN = {'quick': 6, 'thorough': 8}
 NRANDOM = {'quick': 2500, 'thorough': 30000}
@@ -110,7 +111,10 @@ def check(ctx, phi, edge, mask, step, case, tag, container=True):
                 return
         for cache in (True, False):
             try:
-                cyc = C.Cycles(phi.copy(), phase_step=step, phase_edge=edge, use_cache=cache)
+                as_col = bool(ctx.rng.random() < .3)      # the same phase handed over as a single column
+                cyc = C.Cycles(phi[:, None].copy() if as_col else phi.copy(), phase_step=step, phase_edge=edge, use_cache=cache)
+                if as_col:
+                    ctx.count('containers_from_column_input')
                 flags = np.asarray(cyc.metrics['is_good']).astype(int)
             except Exception as e:
                 ctx.violation('container-exception:%s' % type(e).__name__, 'Cycles(...) raised %s: %s' % (type(e).__name__, str(e)[:100]), case)
@@ -177,6 +181,29 @@ def run_shard(ctx):
                 mask, _ = gens.relayout(rng, mask, 'strided')
             ctx.count('strided_inputs')
         check(ctx, phi, edge, mask, step, {'kind': 'c13', 'phase': phi, 'phase_edge': edge, 'mask': mask, 'phase_step': step}, 'synthetic')
+        if i % 6 == 1:
+            # multi-column input: each column must be labelled as it is on its own, wherever a wrap-free column sits
+            from emd import cycles as C
+            flat = np.full(len(phi), float(rng.uniform(.5, 5)))
+            other = gens.synthetic_phase(rng, n=len(phi), ncycles=12)
+            cols = [np.asarray(phi), flat] + ([other] if len(other) == len(phi) else [])
+            order = rng.permutation(len(cols))
+            P = np.stack([cols[j] for j in order], axis=1)
+            try:
+                with quiet():
+                    got = C.get_cycle_vector(P.copy(), return_good=True, phase_step=step, phase_edge=edge)
+                ctx.count('multicolumn_good_calls')
+                for j in range(P.shape[1]):
+                    with quiet():
+                        single = np.asarray(C.get_cycle_vector(P[:, j].copy(), return_good=True, phase_step=step, phase_edge=edge)).reshape(-1)
+                    if got.shape != P.shape or not np.array_equal(got[:, j], single):
+                        ctx.violation('good-multicolumn', 'column %d of the multi-column good-cycle labelling differs from the labelling of that column '
+                                      'alone (a wrap-free column is at index %d)' % (j, int(np.where(order == 1)[0][0])),
+                                      {'kind': 'c13multi', 'phase': P, 'phase_edge': edge, 'phase_step': step})
+                        break
+            except Exception as ex:
+                ctx.violation('good-multicolumn-exception:%s' % type(ex).__name__, 'multi-column good-cycle labelling raised %s' % str(ex)[:100],
+                              {'kind': 'c13multi', 'phase': P, 'phase_edge': edge, 'phase_step': step})
         if i % 3 == 0:
             # boundary probing: cycles that start / end a hair inside or outside the edge tolerance
             probe = []
@@ -208,5 +235,14 @@ def finalize(agg, tier):
 
 
 def replay(ctx, case):
+    if case.get('kind') == 'c13multi':
+        from emd import cycles as C
+        P = np.asarray(case['phase'], float)
+        got = C.get_cycle_vector(P.copy(), return_good=True, phase_step=case['phase_step'], phase_edge=case['phase_edge'])
+        for j in range(P.shape[1]):
+            single = np.asarray(C.get_cycle_vector(P[:, j].copy(), return_good=True, phase_step=case['phase_step'], phase_edge=case['phase_edge'])).reshape(-1)
+            if not np.array_equal(got[:, j], single):
+                ctx.violation('good-multicolumn', 'column %d differs from its single-column labelling' % j, case)
+        return
     m = case.get('mask')
     check(ctx, np.asarray(case['phase'], float), case['phase_edge'], None if m is None else np.asarray(m, bool), case['phase_step'], case, 'replay')
